@@ -223,6 +223,14 @@ def judge(b, case, sq, rng, pres_list):
             else:
                 m = frames_match(refs[be], got, ordered_by=fo[0] if fo else None)
             if m:
+                from vf.checks.c19 import tied_limit
+
+                if tied_limit(case, frames, "pandas" if be in ("pandas", "sqlite") else "polars"):
+                    # an order_rows(limit=k) inside the pipeline whose order keys tie on this engine: which tied rows
+                    # are kept is not fixed, so the result may legitimately follow the input order
+                    b.count("limit_with_ties_not_judged", be)
+                    continue
+            if m:
                 b.violation("result-depends-on-input-order-or-index", f"{be}: inputs presented as '{how}': {m}\n"
                             f"pipeline: {diff.describe(case)[-700:]}", case=dict(cj, backend=be, presentation=how))
                 return None
